@@ -6,11 +6,15 @@
   variable in any open scope exactly as it was, keeps both arenas' sizes, and puts on the free
   lists only slots that were already free or are unreachable; the marker marks a container if and
   only if it is reachable (`mark_exact`), so nothing reachable is ever emptied or handed out again.
+  Under the run-time invariant `StOK` (which every state of every run satisfies, `C13.run_keeps_invariant`)
+  a collection never panics and leaves the heap well formed (`collect_never_panics`,
+  `collect_keeps_heap_wellformed`), so a collection may be inserted after any statement of any run.
   Program level: `gc_invisible` (output and end status independent of the collection schedule) is
   decided by the C07 correspondence runs under forced schedules; its proof needs the evaluator to
   be invariant under renaming of arena indices and is not closed yet (DESIGN.md §6).
 -/
 import Pakhi.Lemmas.Collect
+import Pakhi.Lemmas.EvalInv
 
 namespace Pakhi
 namespace C07
@@ -103,6 +107,20 @@ example : ∃ h', collect [[("x".toList, .list 0)]]
       { lists := [[.list 1], [.list 0, .num 5], [.list 0]], freeLists := [], records := [], freeRecords := [], allocCount := 7 } = .ok h'
     ∧ h'.lists = [[.list 1], [.list 0, .num 5], []] ∧ h'.freeLists = [2] := by
   refine ⟨_, rfl, ?_, ?_⟩ <;> decide
+
+/-- a collection started in a state satisfying the run-time invariant never panics (no dangling root, no
+    mark vector shorter than its arena), whatever the heap shape -/
+theorem collect_never_panics (h : Heap) (scs : List Scope) (hh : HeapOK (fun _ _ => True) h)
+    (hs : ScopesOK (fun _ _ => True) h scs) (p : String) : collect scs h ≠ .panic p :=
+  (collect_ok (fun _ _ => True) hh hs).1 p
+
+/-- … and the heap it returns is well formed again with arenas of the same size, so every reference that was
+    valid before is valid after -/
+theorem collect_keeps_heap_wellformed (h h' : Heap) (scs : List Scope) (hh : HeapOK (fun _ _ => True) h)
+    (hs : ScopesOK (fun _ _ => True) h scs) (hc : collect scs h = .ok h') :
+    HeapOK (fun _ _ => True) h' ∧ h'.lists.length = h.lists.length ∧ h'.records.length = h.records.length := by
+  obtain ⟨a, b, c⟩ := (collect_ok (fun _ _ => True) hh hs).2 h' hc
+  exact ⟨a, Nat.le_antisymm c.1 b.1, Nat.le_antisymm c.2 b.2⟩
 
 end C07
 end Pakhi
